@@ -634,7 +634,7 @@ func runC09(c *mon.Ctx) {
 
 	// InstallCMap: encoding ids follow the code range, both keys share the subtable
 	c.Stratum("install", c.N(300, 20000), func(k *mon.Case) { c09install(k) })
-	c.Require("install:full-unicode", "install:bmp", "install:format12-bmp-only", "install:explicit-zero-entries")
+	c.Require("install:full-unicode", "install:bmp", "install:format12-bmp-only", "install:explicit-zero-entries", "install:over-existing-map", "install:over-table-from-file")
 
 	// GetBest
 	c.Stratum("getbest", c.N(32*12, 32*600), func(k *mon.Case) { c09getbest(k) })
@@ -1699,7 +1699,76 @@ func c09install(k *mon.Case) {
 		}
 	}
 	f := &sfnt.Font{}
+	// half of the fonts already have a character map: installed earlier, or
+	// as a file would bring it (any subset of the usual keys, each with a
+	// mapping that is stale from now on)
+	prior := ""
+	switch r.IntN(4) {
+	case 0:
+		old := cmap.Format12{0x41: 60001, 0x1F600: 60002, 0x10FFFF: 60003}
+		for c := range want {
+			if r.IntN(2) == 0 {
+				old[c] = 60004
+			}
+		}
+		if k.Guard("Font.InstallCMap", func() { f.InstallCMap(old) }) {
+			return
+		}
+		prior = "installed-full-unicode"
+	case 1:
+		f.CMapTable = cmap.Table{}
+		for i, key := range c09candidates {
+			if r.IntN(2) == 0 {
+				continue
+			}
+			var data []byte
+			if key.EncodingID == 10 || key.EncodingID == 4 {
+				data = cmap.Format12{0x41: glyph.ID(61000 + i), 0x20000: 61009}.Encode(0)
+			} else {
+				data = cmap.Format4{0x41: glyph.ID(61000 + i), 0xE9: 61008}.Encode(0)
+			}
+			f.CMapTable[key] = data
+			prior += fmt.Sprintf("(%d,%d)", key.PlatformID, key.EncodingID)
+		}
+		if prior == "" {
+			f.CMapTable = nil
+		} else {
+			prior = "table:" + prior
+		}
+	}
 	if k.Guard("Font.InstallCMap", func() { f.InstallCMap(sub) }) {
+		return
+	}
+	if prior != "" {
+		// the new map is the font's character map now
+		var best cmap.Subtable
+		var err error
+		if k.Guard("cmap.Table.GetBest", func() { best, err = f.CMapTable.GetBest() }) {
+			return
+		}
+		k.Eval()
+		if err != nil {
+			k.Fail("mismatch", "install:getbest-fails", "GetBest after InstallCMap on a font that had a character map (%s): %v", prior, err)
+			return
+		}
+		probes := []uint32{0x41, 0xE9, 0x1F600, 0x20000, 0x10FFFF}
+		for c := range want {
+			probes = append(probes, c)
+			if len(probes) > 300 {
+				break
+			}
+		}
+		sort.Slice(probes, func(i, j int) bool { return probes[i] < probes[j] })
+		for _, c := range probes {
+			if g := uint32(best.Lookup(rune(c))); g != want[c] {
+				k.Fail("mismatch", "install:stale-map-after-install", "the font had a character map (%s); after InstallCMap, GetBest maps U+%04X to glyph %d, the installed map says %d", prior, c, g, want[c])
+				return
+			}
+		}
+		k.Class("install:over-existing-map")
+		if prior[0] == 't' {
+			k.Class("install:over-table-from-file")
+		}
 		return
 	}
 	t := f.CMapTable
